@@ -304,7 +304,7 @@ func init() {
 		Engines: []EngineSpec{rules("PAIR", "PAIR-snap"), rules("REG", "REG-rounds"), rules("ORD", "ORD-agree", "ORD-canon", "ORD-mark")},
 		Clause: "In the function that propagates call-site argument types, every arm that writes the argument into the parameter table has marked it as inferred from a call first (ORD-mark: the mark is what makes the next call widen the parameter instead of being checked against the first call's type; an unmarked arm makes the result depend on which call comes first). Argument types saved before a method body is analysed are restored on every exit (must-pass-through from the snapshot call to the restore call), the round protocol is consistent (every round name compared is produced; diagnostics are recorded in the last round), and the binder's two canonical orders agree: call-site keywords are sorted by the stored key text, the same text the parameter names are sorted by, and no return of the canonicaliser by-passes the sort (otherwise an argument is matched with the wrong parameter or never propagated).",
 		NotCovered: "the propagation rules themselves",
-	}, propMeta{Technique: "must-pass-through over the SSA CFG + agreement of string constants + agreement of the two canonical orders (accessor returns the stored key; sort dominates every return)", LevelText: "all snapshot call sites and all round comparisons are enumerated and decided.", LevelNote: "snapshot/restore functions resolved by role (writer/reader of the package-level map[FrameKey]T)", DesignRef: "4 PAIR, REG-rounds; 5 C15"})
+	}, propMeta{Technique: "must-pass-through over the SSA CFG + agreement of string constants + agreement of the two canonical orders (accessor returns the stored key; sort dominates every return) + sibling-agreement dominance rule (every table write of the marked parameter is dominated by its marking, also through helpers that store their own parameter)", LevelText: "all snapshot call sites and all round comparisons are enumerated and decided.", LevelNote: "snapshot/restore functions resolved by role (writer/reader of the package-level map[FrameKey]T)", DesignRef: "4 PAIR, REG-rounds; 5 C15"})
 
 	claim("C16", PropertySpec{
 		Engines: []EngineSpec{rules("PAIR", "PAIR-byvalue", "PAIR-ctx", "PAIR-bal"), rules("ORD", "ORD-flat", "ORD-flat-use", "ORD-edge"), rules("REC", "REC-key")},
@@ -322,19 +322,19 @@ func init() {
 		Engines: []EngineSpec{rules("ORD", "ORD-load", "ORD-prov", "ORD-own"), rules("ED", "ED-1"), all("GEN"), rules("RS", "RS-def")},
 		Clause: "Nothing is printed while a preload file is analysed (every printing call of the analysis loop is dominated by the false edge of the load flag), diagnostics have a single writer, the file name and the row of every record come from the same object, only records made for the target file are collected into its hint list and the parser of a preloaded file never carries the requested row (ORD-own), and the counter of every fresh-name generator is only ever advanced from its own value (names handed out while a preload file is analysed stay in the tables, so a per-file reset makes preloads and target collide where a concatenation cannot); and the type a definition records never depends on what was evaluated before it: in the `def` evaluator every read of the parser's last evaluated value is preceded, on every path from the evaluator's entry, by a definite write made by the evaluator itself (RS-def) — otherwise the first definition of the target file sees the last statement of the preceding file only when files are concatenated.",
 		NotCovered: "equality with the concatenated run",
-	}, propMeta{Technique: "dominance over the SSA CFG of the analysis loop with call-graph print summaries + provenance (root object) comparison of record components + own-file filter and requested-row rules in package main + monotone fresh-name counters + must-write-before-read in the definition evaluator", LevelText: "all printing calls of the loop and all file+row record assemblies are enumerated and decided.", LevelNote: "file-name fields are anchored by name (FileName); integer row parameters are followed to their call sites", DesignRef: "4 ORD-load, ORD-prov; 5 C18"})
+	}, propMeta{Technique: "dominance over the SSA CFG of the analysis loop with call-graph print summaries + provenance (root object) comparison of record components + own-file filter, requested-row, round-independence and back-to-back rules in package main (effect summaries over the VTA call graph: stores, map updates and deletes on package-level tables between the preload and the target analysis) + monotone fresh-name counters + must-write-before-read in the definition evaluator", LevelText: "all printing calls of the loop and all file+row record assemblies are enumerated and decided.", LevelNote: "file-name fields are anchored by name (FileName); integer row parameters are followed to their call sites", DesignRef: "4 ORD-load, ORD-prov; 5 C18"})
 
 	claim("C19", PropertySpec{
 		Engines: []EngineSpec{rules("ORD", "ORD-overload", "ORD-lastwins"), rules("GEN", "GEN-mono", "GEN-scope")},
 		Clause: "The loader's 'method already exists → overload' test must be an exact-key lookup: it must not reach, in the call graph, a function that walks the inheritance table (then the answer depends on which extends edges earlier files created, i.e. on file names and splitting); and no store of the loader into a shared keyed table is a plain overwrite (it is guarded by a test reading the same entry, or accumulates onto it), so that no 'last file wins'; synthetic names that become part of a key of a process-wide table come from a process-wide, monotone generator — never from a counter kept in a per-file object (GEN).",
 		NotCovered: "every other order dependence of the loader (documents, registry order)",
-	}, propMeta{Technique: "call-graph reachability from the lookup used by the overload test + guarded-store rule on shared keyed tables + scope rule for fresh-name generators feeding table keys", LevelText: "both overload sites are enumerated and decided.", LevelNote: "overload sites resolved by role: stores to the Overloads field in package builtin", DesignRef: "4 ORD-overload; 5 C19"})
+	}, propMeta{Technique: "call-graph reachability from the lookup used by the overload test + intra-iteration CFG reachability from inheritance-table updates to calls that reach a walker (edges last) + guarded-store rule on shared keyed tables + scope rule for fresh-name generators feeding table keys", LevelText: "both overload sites are enumerated and decided.", LevelNote: "overload sites resolved by role: stores to the Overloads field in package builtin", DesignRef: "4 ORD-overload; 5 C19"})
 
 	claim("C20", PropertySpec{
 		Engines: []EngineSpec{rules("ORD", "ORD-flat", "ORD-flat-use")},
 		Clause: "The registry consulted to decide 'is this a Builtin-frame class' must not erase the frame: its entries carry the frame or are restricted by a frame test; and every consumer that redirects a class to the Builtin frame because its short name is registered also tests that the name was written unqualified (frame/namespace empty).",
 		NotCovered: "other ways an unmentioned class could matter (inheritance edges of same-named classes)",
-	}, propMeta{Technique: "dependence rule on the registry append over go/ssa + guard rule at every consumer of the registry", LevelText: "the single registration site is decided.", LevelNote: "registry anchored by name (BuiltinClasses)", DesignRef: "4 ORD-flat; 5 C20"})
+	}, propMeta{Technique: "dependence rule on the registry append over go/ssa + guard rule at every reader of the registry (membership tests on a token's own text, or conjoined with an unqualified-name test; redirecting or not)", LevelText: "the single registration site is decided.", LevelNote: "registry anchored by name (BuiltinClasses)", DesignRef: "4 ORD-flat; 5 C20"})
 
 	claim("C21", PropertySpec{
 		Engines: []EngineSpec{all("AL"), rules("LA", "LA-copy")},
@@ -352,7 +352,7 @@ func init() {
 		Engines: []EngineSpec{rules("ORD", "ORD-spec", "ORD-key", "ORD-own", "ORD-log")},
 		Clause: "An append to one of the logs never depends on a membership test of that log (ORD-log: records carry file and row but no column, so a de-duplicating guard merges two call sites of one row). Functions that evaluate on a by-value copy of the parser (condition look-ahead) cannot reach a store to an append-only global log (call points, callee points, special comments, define-info and signature articles) unless the store is dominated by a test of a parser field the look-ahead sets on its copy. Every frame-qualified key (frame accessor followed by class accessor in one concatenation — the call-point and callee-point keys and the navigator's look-up keys among them) reads both halves from the same object, so that the recorder and the navigator name the same method. Every round — the reporting round, which records call points, included — runs on preloaded files as on the target (ORD-own).",
 		NotCovered: "rows, callee lists",
-	}, propMeta{Technique: "call-graph effect reachability from speculative roots; provenance rule over the type-checked AST for qualified-name keys", LevelText: "all speculative roots and all qualified-name concatenations are enumerated and decided.", LevelNote: "speculative root = by-value Parser parameter that some caller fills with *ptr", DesignRef: "4 ORD-spec; 5 C24"})
+	}, propMeta{Technique: "call-graph effect reachability from speculative roots; dominance rule on log appends (no membership test of the log itself); provenance rule over the type-checked AST for qualified-name keys; round-independence and back-to-back rules on the analysis calls", LevelText: "all speculative roots and all qualified-name concatenations are enumerated and decided.", LevelNote: "speculative root = by-value Parser parameter that some caller fills with *ptr", DesignRef: "4 ORD-spec; 5 C24"})
 
 	claim("C27", PropertySpec{
 		Engines: []EngineSpec{rules("ORD", "ORD-frame", "ORD-key"), rules("REC", "REC-key")},
